@@ -16,6 +16,7 @@ import Proofs.C09_General
 import Proofs.C09_Convert
 import Proofs.C09_DocGrid
 import Proofs.C09_XmlGrid
+import Proofs.C09_Ext7
 namespace Mammoth
 
 /-! ## 1. `calculate_row_spans` on a well-formed grid -/
@@ -436,5 +437,77 @@ example : (match readElem {} 6 {} (.elem S!"w:tbl" []
 example : c09_validGrid (c09x_xmlGrid
     [.elem S!"w:tr" [] [c09x_tc [.elem S!"w:gridSpan" [(S!"w:val", S!"x")] []] []]]) = false := by decide +kernel
 
+/-! ## 7. warnings, unmerged tables, the head/body split point, ignored tables (Proofs/C09_Ext7.lean) -/
+
+/-- The warnings of `calculate_row_spans`, for every list of table children.  (a) If some child is not a row, the
+    children are returned UNCHANGED with exactly the one "non-row" warning; (b) if all are rows but some row has a
+    child that is not a cell, they are returned unchanged with exactly the one "non-cell" warning; (c) there is no
+    message at all iff every child is a row all of whose children are cells (`c09e7_shape`). -/
+theorem C09_rowspans_warnings (rows : List Elem) :
+    (rows.all isRow = false → calculateRowSpans rows =
+        (rows, [S!"unexpected non-row element in table, cell merging may be incorrect"])) ∧
+    (rows.all isRow = true → (rows.all fun r => (rowCells r).all isCell) = false → calculateRowSpans rows =
+        (rows, [S!"unexpected non-cell element in table row, cell merging may be incorrect"])) ∧
+    ((calculateRowSpans rows).2 = [] ↔ c09e7_shape rows = true) :=
+  ⟨(c09e7_cases rows).1, (c09e7_cases rows).2.1, c09e7_messages_nil_iff rows⟩
+
+example : c09e7_shape (c09_toElems (fun i => i == 0) c09_ex) = true := by decide
+example : calculateRowSpans [.row false [.cell 1 1 true []], .tab] =
+    ([.row false [.cell 1 1 true []], .tab],
+     [S!"unexpected non-row element in table, cell merging may be incorrect"]) := by rfl
+example : calculateRowSpans [.row false [.cell 1 1 true [], .tab]] =
+    ([.row false [.cell 1 1 true [], .tab]],
+     [S!"unexpected non-cell element in table row, cell merging may be incorrect"]) := by rfl
+
+/-- A table without vertical merges is left alone: if every child is a row whose children are all cells WITHOUT the
+    continuation mark (`c09e7_plainRow`; any colspans, any rowspans already present, any contents, rows of any and
+    unequal widths), `calculate_row_spans` returns exactly the same rows — no cell dropped, no rowspan changed — and
+    no message.  In particular it is the identity on its own results. -/
+theorem C09_rowspans_unmerged_identity (rows : List Elem) (h : rows.all c09e7_plainRow = true) :
+    calculateRowSpans rows = (rows, []) :=
+  c09e7_plain_identity rows h
+
+example : [Elem.row true [.cell 2 3 false [.text S!"a"]], .row false [.cell 1 1 false [], .cell 1 5 false []]].all
+    c09e7_plainRow = true := by decide
+/-- the rows `calculate_row_spans` returns for the example grid are such rows -/
+example : (calculateRowSpans (c09_toElems (fun i => i == 0) c09_ex)).1.all c09e7_plainRow = true := by decide
+
+/-- The `thead`/`tbody` split point is decided by the document's header flags alone.  For every list of table
+    children, `body_index` of what `calculate_row_spans` returns equals `body_index` of what it was given (dropping
+    continuation cells never changes which rows are leading header rows); and for a grid `rows` with header flags
+    `hdr` (any grid, well-formed or not) it is `c09e7_lead hdr 0 rows.length`, the number of consecutive row
+    indices 0, 1, … below the number of rows at which `hdr` holds. -/
+theorem C09_bodyIndex_rowspans (rows : List Elem) (hdr : Nat → Bool) (grid : List c09_Row) :
+    bodyIndex (calculateRowSpans rows).1 = bodyIndex rows ∧
+    bodyIndex (calculateRowSpans (c09_toElems hdr grid)).1 = c09e7_lead hdr 0 grid.length := by
+  refine ⟨c09e7_bodyIndex_calculate rows, ?_⟩
+  rw [c09e7_bodyIndex_calculate]
+  exact c09e7_bodyIndex_toElemsFrom hdr grid 0
+
+/-- header rows 0 and 1, then a body row, then a row flagged header again: only the leading two count -/
+example : c09e7_lead (fun i => i != 2) 0 4 = 2 := by decide
+example : bodyIndex (calculateRowSpans (c09_toElems (fun i => i != 2) (c09_ex ++ c09_ex))).1 = 2 := by rfl
+
+/-- A table whose style mapping is `!` (ignore) produces no HTML node at all and its rows are never visited: the
+    conversion is `pure []`, so it cannot fail and leaves the converter state (note numbering, comment references,
+    messages, image calls) untouched, whatever the rows contain. -/
+theorem C09_visit_table_ignored (cfg : Cfg) (hdr : Bool) (sid sname : Option Str) (rows : List Elem) (s : ConvState)
+    (hpath : findPath cfg (.table sid sname) = some .ignore) :
+    (visit cfg hdr (.table sid sname rows)).run s = .ok ([], s) := by
+  rw [c09e7_visit_table_ignored cfg hdr sid sname rows hpath]
+  rfl
+
+example : findPath { styleMap := [⟨.table none none, .ignore⟩] } (.table none none) = some .ignore := by decide
+/-- the note reference inside the ignored table is not counted; without the mapping it is -/
+example : (((visit { styleMap := [⟨.table none none, .ignore⟩] } false
+      (.table none none [.row false [.cell 1 1 false [.noteRef S!"footnote" S!"1"]]])).run {}).toOption.map
+        fun p => (p.1, p.2.noteRefs)) = some ([], []) ∧
+    (((visit {} false (.table none none [.row false [.cell 1 1 false [.noteRef S!"footnote" S!"1"]]])).run
+        {}).toOption.map fun p => p.2.noteRefs) = some [(S!"footnote", S!"1")] := ⟨by rfl, by rfl⟩
+
+#print axioms C09_rowspans_warnings
+#print axioms C09_rowspans_unmerged_identity
+#print axioms C09_bodyIndex_rowspans
+#print axioms C09_visit_table_ignored
 
 end Mammoth
